@@ -288,7 +288,7 @@ func stRun(op string, workDir string) (obs string, tags []string) {
 	loadErr, ok4 := ckParseVbs(kv["loaderr"])
 	flogErr, ok5 := ckParseVbs(kv["flogerr"])
 	openErr, ok6 := ckParseVbs(kv["openerr"])
-	if e1 != nil || e2 != nil || !ok1 || !ok2 || !ok3 || !ok4 || !ok5 || !ok6 || lo != 0 || hi < 0 || hi > 63 {
+	if e1 != nil || e2 != nil || !ok1 || !ok2 || !ok3 || !ok4 || !ok5 || !ok6 || lo != 0 || hi < 0 || hi > 1023 {
 		return "bad-op", []string{"bad-op"}
 	}
 	n := hi + 1 // assigned vBuckets 0..hi
@@ -1126,6 +1126,28 @@ func runC15W(c *Ctx) {
 				s.push = false
 			}
 			fp(s, tags...)
+		}
+		// L. large assignments (every one of them must be requested): sizes around and between the multiples of 64 / 128 / 256,
+		// also as one member's share of a 1024-vBucket bucket (1 of 3 = 342, 1 of 4 = 256, 1 of 5 = 205)
+		large := func(n, members int, tags ...string) {
+			s := stBase(name("large"), n, r)
+			if members > 1 {
+				s.members = members
+				for vb := n; vb < n*members && vb < 1024; vb++ {
+					s.high[uint16(vb)] = uint64(10 + r.Intn(1000))
+					s.flog[uint16(vb)] = uint64(1000 + r.Intn(100000))
+				}
+			}
+			add(s.op(f7), append([]string{"large-assignment"}, tags...)...)
+		}
+		for _, n := range []int{127, 129, 300} {
+			large(n, 1, fmt.Sprintf("large-n%d", n))
+		}
+		large(342, 1, "large-n342")
+		if c.N(0, 1) == 1 {
+			for _, n := range []int{64, 128, 200, 256, 257, 511, 1000, 1024} {
+				large(n, 1, fmt.Sprintf("large-n%d", n))
+			}
 		}
 	}
 	type res struct {
